@@ -114,6 +114,36 @@ impl<A: Visit, B: Visit, C: Visit> Visit for (A, B, C) {
 		self.2.visit(poison, f)
 	}
 }
+impl<A: Visit, B: Visit, C: Visit, D: Visit, E: Visit> Visit for (A, B, C, D, E) {
+	fn visit(&self, poison: &mut Vec<bool>, f: &mut VisitFn<'_>) {
+		self.0.visit(poison, f);
+		self.1.visit(poison, f);
+		self.2.visit(poison, f);
+		self.3.visit(poison, f);
+		self.4.visit(poison, f);
+	}
+}
+impl<A: Visit, B: Visit, C: Visit, D: Visit, E: Visit, F: Visit> Visit for (A, B, C, D, E, F) {
+	fn visit(&self, poison: &mut Vec<bool>, f: &mut VisitFn<'_>) {
+		self.0.visit(poison, f);
+		self.1.visit(poison, f);
+		self.2.visit(poison, f);
+		self.3.visit(poison, f);
+		self.4.visit(poison, f);
+		self.5.visit(poison, f);
+	}
+}
+impl<A: Visit, B: Visit, C: Visit, D: Visit, E: Visit, F: Visit, G: Visit> Visit for (A, B, C, D, E, F, G) {
+	fn visit(&self, poison: &mut Vec<bool>, f: &mut VisitFn<'_>) {
+		self.0.visit(poison, f);
+		self.1.visit(poison, f);
+		self.2.visit(poison, f);
+		self.3.visit(poison, f);
+		self.4.visit(poison, f);
+		self.5.visit(poison, f);
+		self.6.visit(poison, f);
+	}
+}
 impl<A: Visit, const N: usize> Visit for [A; N] {
 	fn visit(&self, poison: &mut Vec<bool>, f: &mut VisitFn<'_>) {
 		for a in self {
@@ -601,6 +631,48 @@ coll_impl!(<'w> BoxedLockCollection<&'w OW>, "Boxed<&Owned> (new_ref)", rw);
 coll_impl!(<'w> RefLockCollection<'w, OW>, "Ref<Owned> (new)", rw);
 coll_impl!(<'w> RetryingLockCollection<&'w OW>, "Retrying<&Owned> (new_ref)", rw);
 // owning top-level shapes (own their leaves)
+// tuples of every arity the library implements (1..=7): references for the sorting/retrying kinds, owned locks for Owned
+coll_impl!(<'w> BoxedLockCollection<(&'w R,)>, "Boxed<(&RwLock x1)>", rw);
+coll_impl!(<'w> RefLockCollection<'w, (&'w R,)>, "Ref<(&RwLock x1)>", rw);
+coll_impl!(<'w> RetryingLockCollection<(&'w R,)>, "Retrying<(&RwLock x1)>", rw);
+coll_impl!(<'w> OwnedLockCollection<(R,)>, "Owned<(RwLock x1)>", rw);
+coll_impl!(<'w> BoxedLockCollection<(&'w R, &'w R)>, "Boxed<(&RwLock x2)>", rw);
+coll_impl!(<'w> RefLockCollection<'w, (&'w R, &'w R)>, "Ref<(&RwLock x2)>", rw);
+coll_impl!(<'w> RetryingLockCollection<(&'w R, &'w R)>, "Retrying<(&RwLock x2)>", rw);
+coll_impl!(<'w> OwnedLockCollection<(R, R)>, "Owned<(RwLock x2)>", rw);
+coll_impl!(<'w> BoxedLockCollection<(&'w R, &'w R, &'w R)>, "Boxed<(&RwLock x3)>", rw);
+coll_impl!(<'w> RefLockCollection<'w, (&'w R, &'w R, &'w R)>, "Ref<(&RwLock x3)>", rw);
+coll_impl!(<'w> RetryingLockCollection<(&'w R, &'w R, &'w R)>, "Retrying<(&RwLock x3)>", rw);
+coll_impl!(<'w> OwnedLockCollection<(R, R, R)>, "Owned<(RwLock x3)>", rw);
+coll_impl!(<'w> BoxedLockCollection<(&'w R, &'w R, &'w R, &'w R)>, "Boxed<(&RwLock x4)>", rw);
+coll_impl!(<'w> RefLockCollection<'w, (&'w R, &'w R, &'w R, &'w R)>, "Ref<(&RwLock x4)>", rw);
+coll_impl!(<'w> RetryingLockCollection<(&'w R, &'w R, &'w R, &'w R)>, "Retrying<(&RwLock x4)>", rw);
+coll_impl!(<'w> OwnedLockCollection<(R, R, R, R)>, "Owned<(RwLock x4)>", rw);
+coll_impl!(<'w> BoxedLockCollection<(&'w R, &'w R, &'w R, &'w R, &'w R)>, "Boxed<(&RwLock x5)>", rw);
+coll_impl!(<'w> RefLockCollection<'w, (&'w R, &'w R, &'w R, &'w R, &'w R)>, "Ref<(&RwLock x5)>", rw);
+coll_impl!(<'w> RetryingLockCollection<(&'w R, &'w R, &'w R, &'w R, &'w R)>, "Retrying<(&RwLock x5)>", rw);
+coll_impl!(<'w> OwnedLockCollection<(R, R, R, R, R)>, "Owned<(RwLock x5)>", rw);
+coll_impl!(<'w> BoxedLockCollection<(&'w R, &'w R, &'w R, &'w R, &'w R, &'w R)>, "Boxed<(&RwLock x6)>", rw);
+coll_impl!(<'w> RefLockCollection<'w, (&'w R, &'w R, &'w R, &'w R, &'w R, &'w R)>, "Ref<(&RwLock x6)>", rw);
+coll_impl!(<'w> RetryingLockCollection<(&'w R, &'w R, &'w R, &'w R, &'w R, &'w R)>, "Retrying<(&RwLock x6)>", rw);
+coll_impl!(<'w> OwnedLockCollection<(R, R, R, R, R, R)>, "Owned<(RwLock x6)>", rw);
+coll_impl!(<'w> BoxedLockCollection<(&'w R, &'w R, &'w R, &'w R, &'w R, &'w R, &'w R)>, "Boxed<(&RwLock x7)>", rw);
+coll_impl!(<'w> RefLockCollection<'w, (&'w R, &'w R, &'w R, &'w R, &'w R, &'w R, &'w R)>, "Ref<(&RwLock x7)>", rw);
+coll_impl!(<'w> RetryingLockCollection<(&'w R, &'w R, &'w R, &'w R, &'w R, &'w R, &'w R)>, "Retrying<(&RwLock x7)>", rw);
+coll_impl!(<'w> OwnedLockCollection<(R, R, R, R, R, R, R)>, "Owned<(RwLock x7)>", rw);
+// a sorting / retrying collection over a reference to an owned unit whose members are listed in descending address order
+coll_impl!(<'w> BoxedLockCollection<(&'w OwnedLockCollection<Vec<&'w mut R>>, &'w R)>, "Boxed<(&Owned<Vec<&mut RwLock>>,&RwLock)>", rw);
+coll_impl!(<'w> RefLockCollection<'w, (&'w OwnedLockCollection<Vec<&'w mut R>>, &'w R)>, "Ref<(&Owned<Vec<&mut RwLock>>,&RwLock)>", rw);
+coll_impl!(<'w> RetryingLockCollection<(&'w OwnedLockCollection<Vec<&'w mut R>>, &'w R)>, "Retrying<(&Owned<Vec<&mut RwLock>>,&RwLock)>", rw);
+// an owned tuple with a zero-sized member that may share its address with the real lock next to it
+coll_impl!(<'w> BoxedLockCollection<(OwnedLockCollection<[R; 0]>, R)>, "Boxed<(Owned<[;0]>,RwLock)> (new)", rw);
+coll_impl!(<'w> RefLockCollection<'w, (OwnedLockCollection<[R; 0]>, R)>, "Ref<(Owned<[;0]>,RwLock)> (new)", rw);
+coll_impl!(<'w> RetryingLockCollection<(OwnedLockCollection<[R; 0]>, R)>, "Retrying<(Owned<[;0]>,RwLock)> (new)", rw);
+coll_impl!(<'w> OwnedLockCollection<(OwnedLockCollection<[R; 0]>, R)>, "Owned<(Owned<[;0]>,RwLock)>", rw);
+coll_impl!(<'w> BoxedLockCollection<(R, OwnedLockCollection<[R; 0]>)>, "Boxed<(RwLock,Owned<[;0]>)> (new)", rw);
+coll_impl!(<'w> RefLockCollection<'w, (R, OwnedLockCollection<[R; 0]>)>, "Ref<(RwLock,Owned<[;0]>)> (new)", rw);
+coll_impl!(<'w> RetryingLockCollection<(R, OwnedLockCollection<[R; 0]>)>, "Retrying<(RwLock,Owned<[;0]>)> (new)", rw);
+coll_impl!(<'w> OwnedLockCollection<(R, OwnedLockCollection<[R; 0]>)>, "Owned<(RwLock,Owned<[;0]>)>", rw);
 coll_impl!(<'w> OwnedLockCollection<(M, R)>, "Owned<(Mutex,RwLock)>", x);
 coll_impl!(<'w> OwnedLockCollection<[R; 3]>, "Owned<[RwLock;3]>", rw);
 coll_impl!(<'w> OwnedLockCollection<Box<[R]>>, "Owned<Box<[RwLock]>>", rw);
